@@ -30,7 +30,11 @@ Definition nice_name (n : bytes) : bool :=
   if is_empty n then false
   else if is_pseudo_ref n then true
   else starts_with (bs "refs/") n && forallb name_char n
-       && forallb (fun c => negb (is_empty c)) (split slash n).
+       && forallb (fun c => negb (is_empty c)) (split slash n)
+       (* no `refs/X` or `refs/<cat>/X…` with an all-caps X: those are the short-name (DWIM) candidates of
+          the pseudo ref X in `find_one_with_verified_input` / `packed::Buffer::try_find` *)
+       && negb (is_pseudo_ref (nth 1 (split slash n) (bs "x")))
+       && negb (is_pseudo_ref (nth 2 (split slash n) (bs "x"))).
 
 Definition is_hex_char (b : byte) : bool :=
   let n := b2N b in (N.leb 48 n && N.leb n 57) || (N.leb 97 n && N.leb n 102).
